@@ -135,7 +135,12 @@ func TypeName(v Value) string {
 		return "boolean"
 	case float64:
 		return "number"
-	case string, *Opaque:
+	case string:
+		return "string"
+	case *Opaque:
+		if v.(*Opaque).Kind == "linenum" {
+			return "number"
+		}
 		return "string"
 	case *Table:
 		return "table"
